@@ -41,6 +41,9 @@ CHECKS = {
  'C11': dict(tech='Verus contracts (definitions of dot, magnitude, distance, normalisation family, approx-zero tests, reflection, refraction by cases, face_forward, angle_between, 2-D side/area, homogenisation, cross) on the extracted vec_impl_spatial! expansions of all 9 spatial vector types + z3 (QF_NRA) lemmas for the cross-product laws, unit length/parallelism of normalized, mirror law, Snell (staged), glued by theorem functions',
              text='Deductive proof for Vec2/3/4/8/16/32/64 and Extent2/3: every spatial function equals its definition; theorem functions (Vec2/3/4) prove: cross product bilinear, anticommutative, orthogonal to both operands, |a x b|^2 = |a|^2|b|^2-(a.b)^2; magnitude >= 0 with magnitude^2 = magnitude_squared, distance likewise; normalized has unit length, is parallel to and points along v (all four normalisation forms agree); try_normalized is None exactly when is_approx_zero; reflected flips the normal component and keeps the length; refracted is the zero vector on total internal reflection and otherwise a unit vector with normal component -sqrt(k) (Snell); angle_between lies in [0,pi]; homogenized has w = 1.',
              note=TB + 'approx::RelativeEq is modelled by pre::rel_eq_r; acos_r/sqrt_r axioms; vek::ops::Clamp is extracted (real trait and f32 impl with f32 := R). Vec3 slerp is not yet under contract.', ref='5 C11'),
+ 'C12': dict(tech='Verus contracts on the extracted Lerp/Slerp traits (default methods), the f32 impls (f32 := exact scalar), the inherent and trait lerp family of all 13 vector types (by value and by reference, generic element Lerp), quaternion (n)lerp and slerp by cases, the Transition accessors; z3 (QF_NRA) lemmas (precise == fast formula, affinity, nlerp unit, staged slerp trigonometry); theorem functions; Kani for the integer impls when /verif/kani/c12 has harnesses',
+             text='Deductive proof: lerp_unclamped = from + f*(to-from) per element for every vector type (scalar or per-element factor), the precise formula equals the fast one, value at 0/1 is from/to, affine in the factor, clamped forms = unclamped at the factor clamped to [0,1] (trait default methods of the real Lerp trait), by-value and by-reference trait impls agree element-wise with the element type Lerp; quaternion Lerp returns the normalised (unit) interpolant, the unnormalised forms hit their end points; Quaternion::slerp_unclamped equals its definition along the shorter arc by cases and, for unit inputs in the trigonometric branch, is unit, makes the angle t*theta with the start and reaches both ends; each Transition accessor is the (clamped) interpolation at the mapped progress.',
+             note=TB + 'sin/cos/acos axioms; ProgressMapperFn (fn pointer) and Transform Lerp are not under contract; integer Lerp is Kani territory.', ref='5 C12'),
  'C06': dict(tech='Verus contracts (cofactor/Leibniz determinant, adjugate/determinant inverse) on the extracted determinant/inverted/Mul functions + z3 (QF_NRA) lemmas for det multiplicativity, transpose invariance and M*adj/det = I, glued by Verus-checked theorem functions over the real API',
              text='Deductive proof: determinant (2,3,4; both layouts) equals the cofactor expansion; Mat4::inverted (2x2-block algorithm through the real shuffle/mat2 helper code incl. the bit-packed ShuffleMask4) returns adj(M)/det(M) whenever det != 0; theorem functions calling the real API prove det(M^T)=det(M), layout invariance, det(AB)=det(A)det(B) and M*M^-1 = M^-1*M = I for every real matrix with non-zero determinant, with the polynomial/rational identities discharged by z3 (nlsat / solve-eqs+smt portfolio).',
              note=TB + 'The rigid and affine fast inverses are not yet under contract (listed under not_decided).', ref='5 C06'),
